@@ -2,17 +2,17 @@ CONSTANTS
   w1 = w1
   w2 = w2
   Wakers = {w1, w2}
-  Target <- TgtMM
-  Tasks = {}
+  Target <- TgtMT
+  Tasks = {"t1"}
   QCap = 1
-  Mode = "external"
+  Mode = "block_on"
   Driver = "iour"
   Eager = TRUE
-  ArmInFlush = TRUE
+  ArmInFlush = FALSE
   WakeAfterPush = TRUE
-  Overflow = FALSE
+  Overflow = TRUE
   MaxLen = 80
   LateRounds = 0
-  W2Window = {}
+  W2Window = {"ovEnter", "ovLeave", "ovClear"}
 SPECIFICATION GSpec
 INVARIANTS EmitInv
